@@ -114,6 +114,20 @@ theorem C05_lin_points_in_window (scripts : List (List COp)) (c : Cfg Shared Thr
   obtain ⟨_, _, _, hh⟩ := hinv_reach hr
   exact ⟨fun p t i a o hp => ⟨hh.g1 p t i a o hp, hh.g2 p t i a o hp⟩, hh.g3⟩
 
+/-- **A closed store stays closed, concurrently.**  If a call is invoked after a `Close` point of the trace (its invocation
+event lies behind the position `q` of the flag swap), none of its accesses ever takes effect - wherever the trace goes on:
+it can only fail with ErrStoreClosed (`C05_linearizable` (2): its only possible linearisation point is the closed-flag
+failure).  Only calls that were already running when the flag was swapped can still take effect (`C05_lin_points_in_window`,
+second part) - which is what makes the reordering of `C05_linearizable_close` legitimate. -/
+theorem C05_no_effect_after_close (scripts : List (List COp)) (c : Cfg Shared Thread)
+    (hr : Reach sys (initCfg scripts) c) (q t i : Nat) (e : Ev) (hq : c.1.tr[q]? = some e) (hcl : isCloseLin e = true)
+    (hinv : q < invPos c.1.tr t i) : ∀ (p : Nat) (a : DOp) (o : Out), c.1.tr[p]? ≠ some (Ev.lin t i (.eff a) o) := by
+  intro p a o hp
+  obtain ⟨h1, h2⟩ := C05_lin_points_in_window scripts c hr
+  have hw := (h1 p t i _ o hp).1
+  have := h2 p q t i a o e hp hq hcl (by omega)
+  omega
+
 /-- A finished goroutine has completed exactly the calls of its script: its events are complete
 blocks, one per call. -/
 theorem C05_finished_complete (scripts : List (List COp)) (c : Cfg Shared Thread)
@@ -538,7 +552,7 @@ theorem C05_compile_is_assembled_commit (b v : Nat) (r : Bytes) (sets dels : Lis
         .s (.i (.unlock (.batch b))), .s (.i (.unlock (.view v)))] := rfl
   refine ⟨ht, ?_⟩
   simp only [Asm.assemble, ht, Option.bind_some, Asm.instT, Option.map_some, Asm.loop_writes, compile,
-    Asm.commitWrites_append, List.append_assoc, List.cons_append, List.nil_append, List.append_nil]
+    Asm.commitWrites_append, List.append_assoc]
 
 /-- The flag-only calls: one `closed.Load()`, no lock operation (what `flagCode` mirrors); `WithExtendedRealm` is
 `WithRealm` on the concatenated realm. -/
